@@ -33,7 +33,7 @@ type Op struct {
 
 // IsExec reports whether the op executes a template.
 func (o Op) IsExec() bool {
-	return o.Kind == "exec" || o.Kind == "exect" || o.Kind == "exechtml" || o.Kind == "execthtml"
+	return o.Kind == "exec" || o.Kind == "exect" || o.Kind == "exechtml" || o.Kind == "execthtml" || o.Kind == "execbyname"
 }
 
 // IsParse reports whether the op (re)defines templates.
@@ -69,7 +69,7 @@ type Result struct {
 type Exec struct {
 	H     *History
 	Vars  []*template.Template
-	ticks int
+	ticks *int
 	data  []map[string]interface{}
 }
 
@@ -113,7 +113,7 @@ func (e *Exec) Close() {}
 
 // NewExec prepares an executor.
 func NewExec(h *History) *Exec {
-	e := &Exec{H: h, Vars: make([]*template.Template, h.NVar)}
+	e := &Exec{H: h, Vars: make([]*template.Template, h.NVar), ticks: new(int)}
 	for _, d := range h.Data {
 		m := d.Build()
 		m["DOTS"] = ".."
@@ -126,7 +126,7 @@ func NewExec(h *History) *Exec {
 }
 
 func (e *Exec) funcs() template.FuncMap {
-	return template.FuncMap{"tick": func() string { e.ticks++; return "" }}
+	return template.FuncMap{"tick": func() string { *e.ticks++; return "" }}
 }
 
 type countWriter struct {
@@ -163,7 +163,7 @@ func (e *Exec) Do(op Op) (res Result) {
 	if op.IsExec() && op.Data >= 0 && op.Data < len(e.data) {
 		data = e.data[op.Data]
 	}
-	before := e.ticks
+	before := *e.ticks
 	pn := core.Recover(func() {
 		switch op.Kind {
 		case "new":
@@ -229,6 +229,11 @@ func (e *Exec) Do(op Op) (res Result) {
 			var w countWriter
 			setErr(h.Execute(&w, data))
 			res.Out = w.b.String()
+		case "execbyname":
+			// reference only: the handle's own template, reached through its name
+			var w countWriter
+			setErr(h.ExecuteTemplate(&w, h.Name(), data))
+			res.Out = w.b.String()
 		case "exect":
 			var w countWriter
 			setErr(h.ExecuteTemplate(&w, op.Name, data))
@@ -250,7 +255,7 @@ func (e *Exec) Do(op Op) (res Result) {
 	if pn != nil {
 		res.Panic = fmt.Sprint(pn)
 	}
-	res.Ticks = e.ticks - before
+	res.Ticks = *e.ticks - before
 	return res
 }
 
@@ -295,6 +300,94 @@ func Reference(h *History, real []Result, k int, skip ...[]bool) Result {
 		e.Do(op)
 	}
 	return e.Do(h.Ops[k])
+}
+
+// PadText defines a template that nothing calls.
+const PadText = `New("zz_unrelated_pad").Parse("pad")`
+
+// ReferencePadded is Reference with one more definition made through the handle of op k just
+// before it: New("zz_unrelated_pad").Parse("pad"), a template that nothing mentions. A Parse may change only what it
+// defines, so the result of op k must not depend on it.
+func ReferencePadded(h *History, real []Result, k int, skip ...[]bool) Result {
+	var sk []bool
+	if len(skip) > 0 {
+		sk = skip[0]
+	}
+	e := rebuildPlain(h, real, k, sk)
+	if v := h.Ops[k].H; v >= 0 && v < len(e.Vars) && e.Vars[v] != nil {
+		// through a new associated template, so that the handle's own template is not given
+		// the (empty) top-level body of the text
+		core.Recover(func() {
+			e.Vars[v].New("zz_unrelated_pad").ParseFromTrustedTemplate(uncheckedconversions.TrustedTemplateFromStringKnownToSatisfyTypeContract("pad"))
+		})
+	}
+	return e.Do(h.Ops[k])
+}
+
+// ReferenceByName is Reference with op k (an Execute on a handle) replaced by
+// ExecuteTemplate on the same handle with the handle's own name.
+func ReferenceByName(h *History, real []Result, k int, skip ...[]bool) Result {
+	var sk []bool
+	if len(skip) > 0 {
+		sk = skip[0]
+	}
+	e := rebuildPlain(h, real, k, sk)
+	op := h.Ops[k]
+	op.Kind = "execbyname"
+	return e.Do(op)
+}
+
+func rebuildPlain(h *History, real []Result, upto int, skip []bool) *Exec {
+	e := NewExec(h)
+	for i := 0; i < upto; i++ {
+		op := h.Ops[i]
+		if op.IsExec() || !real[i].Ran || real[i].IsErr || real[i].Panic != "" {
+			continue
+		}
+		if i < len(skip) && skip[i] {
+			continue
+		}
+		e.Do(op)
+	}
+	return e
+}
+
+// ReferenceRebuild is Reference with every Clone replaced by what the documentation says a
+// clone is: a duplicate of the set as it is at that moment. The handle the clone op returns
+// is obtained by replaying, on new objects, the definitions made before the clone; the
+// clone operation of the engine is not used at all. Whatever the engine's Clone forgets to
+// copy, or copies although the set no longer has it, makes the real run differ from this.
+func ReferenceRebuild(h *History, real []Result, k int, skip ...[]bool) Result {
+	var sk []bool
+	if len(skip) > 0 {
+		sk = skip[0]
+	}
+	ticks := new(int)
+	e := rebuild(h, real, k, sk, ticks)
+	return e.Do(h.Ops[k])
+}
+
+func rebuild(h *History, real []Result, upto int, skip []bool, ticks *int) *Exec {
+	e := NewExec(h)
+	e.ticks = ticks
+	for i := 0; i < upto; i++ {
+		op := h.Ops[i]
+		if op.IsExec() || !real[i].Ran || real[i].IsErr || real[i].Panic != "" {
+			continue
+		}
+		if i < len(skip) && skip[i] {
+			continue
+		}
+		if op.Kind == "clone" {
+			sub := rebuild(h, real, i, skip, ticks)
+			if op.H >= 0 && op.H < len(sub.Vars) {
+				e.set(op.Dst, sub.Vars[op.H])
+			}
+			continue
+		}
+		e.Do(op)
+	}
+	return e
 }
 
 func sortStrings(a []string) {
@@ -464,6 +557,15 @@ func Gen(r *core.Rng, o GenOpts) (*History, gen.Set) {
 			break
 		}
 	}
+	cspMember := false
+	if o.Clones && !o.WildOps && r.Intn(8) == 0 {
+		// a member that a CSP-compatible set refuses; the setting is made before anything runs
+		cspMember = true
+		if r.Bool() {
+			add(Op{Kind: "csp", H: 0, Dst: -1})
+		}
+		add(Op{Kind: "parse", H: 0, Dst: 0, Text: r.Pick([]string{`{{define "cspm"}}{{tick}}<a onclick="f()">x{{$.S0}}</a>{{end}}`, `{{define "cspm"}}{{tick}}<a href="javascript:void(0)">{{$.S0}}</a>{{end}}`})})
+	}
 	if o.ExtraDefs && r.Intn(3) == 0 {
 		fn := r.Pick([]string{"fromfile", "m0", "h0"})
 		add(Op{Kind: []string{"parsefiles", "parseglob", "parsefs"}[r.Intn(3)], H: 0, Dst: 0, Name: fn, Text: r.Pick([]string{"<i>file {{$.S0}}</i>", "<p title=\"{{$.S1}}\">f</p>", "static file"})})
@@ -483,6 +585,9 @@ func Gen(r *core.Rng, o GenOpts) (*History, gen.Set) {
 	if r.Intn(2) == 0 {
 		// helpers are executed directly as well (many end in a non-text context)
 		names = append(names, set.Helpers...)
+	}
+	if cspMember {
+		names = append(names, "cspm", "cspm")
 	}
 	live := []int{0} // variables holding handles of the main set
 	cloneVars := []int{}
@@ -569,7 +674,11 @@ func Gen(r *core.Rng, o GenOpts) (*History, gen.Set) {
 			if r.Bool() {
 				add(Op{Kind: "exect", H: v, Dst: -1, Name: nn, Data: r.Intn(len(h.Data))})
 			}
-			add(Op{Kind: "parse", H: stale, Dst: stale, Text: r.Pick([]string{"{{tick}}stale {{$.S0}}", "{{tick}}{{$.S0}}", `{{tick}}x{{define "` + names[r.Intn(len(names))] + `"}}{{tick}}hijacked {{$.S0}}{{end}}`})})
+			add(Op{Kind: "parse", H: stale, Dst: stale, Text: r.Pick([]string{"{{tick}}stale {{$.S0}}", "stale {{$.S0}}", "<b>{{$.S0}}</b>", `x{{define "` + names[r.Intn(len(names))] + `"}}hijacked {{$.S0}}{{end}}`, `{{tick}}x{{define "` + names[r.Intn(len(names))] + `"}}{{tick}}hijacked {{$.S0}}{{end}}`})})
+			if r.Bool() {
+				// the replaced handle is a template of its own now: Execute on it runs what was parsed into it
+				add(Op{Kind: []string{"exec", "exechtml"}[r.Intn(2)], H: stale, Dst: -1, Data: r.Intn(len(h.Data))})
+			}
 			add(Op{Kind: "exect", H: v, Dst: -1, Name: nn, Data: r.Intn(len(h.Data))})
 			add(Op{Kind: "exect", H: v, Dst: -1, Name: names[r.Intn(len(names))], Data: r.Intn(len(h.Data))})
 		case k < 90 && o.NewOps:
